@@ -240,6 +240,11 @@ func checkC11(c *Ctx) {
 // checkUnpad: the shared un-padding obligations (also used by C17/C19).
 // data is the byte-slice value being unpadded, bs the block size (0 = none).
 func checkUnpad(c *Ctx, rule string, f *ssa.Function, data ssa.Value, bs int64) {
+	checkUnpadDyn(c, rule, f, data, bs, nil)
+}
+
+// checkUnpadDyn: bsIs (optional) recognises the run-time block size value when it is not a constant.
+func checkUnpadDyn(c *Ctx, rule string, f *ssa.Function, data ssa.Value, bs int64, bsIs func(v ssa.Value) bool) {
 	fn := fname(f)
 	spec, ok := defaultResultSpec(f)
 	if !ok {
@@ -254,20 +259,56 @@ func checkUnpad(c *Ctx, rule string, f *ssa.Function, data ssa.Value, bs int64) 
 		return s == "idx(src,len(src)-1)" || s == "idx(src,sub(len(src),0x1))" || strings.HasPrefix(s, "idx(src,")
 	}
 	// atoms on the pad value
-	var zeroAtoms, bigAtoms, lenAtoms []Atom
+	var zeroAtoms, bigAtoms, lenAtoms, eqLenAtoms []Atom
 	for _, ifi := range ifsOf(f) {
 		bo, ok := ifi.Cond.(*ssa.BinOp)
 		if !ok {
 			continue
 		}
 		l, r := stripConvAll(bo.X), stripConvAll(bo.Y)
+		if bsIs != nil {
+			// pad vs dynamic block size
+			if isPad(l, ifi) && bsIs(r) {
+				switch bo.Op {
+				case token.GTR:
+					bigAtoms = append(bigAtoms, Atom{ifi, 1, "pad <= bs"})
+				case token.LEQ:
+					bigAtoms = append(bigAtoms, Atom{ifi, 0, "pad <= bs"})
+				}
+			}
+			if bsIs(l) && isPad(r, ifi) {
+				switch bo.Op {
+				case token.LSS:
+					bigAtoms = append(bigAtoms, Atom{ifi, 1, "pad <= bs"})
+				case token.GEQ:
+					bigAtoms = append(bigAtoms, Atom{ifi, 0, "pad <= bs"})
+				}
+			}
+			// len(src) == bs enforced
+			isLen0 := func(v ssa.Value) bool {
+				return isLenOf(v, func(x ssa.Value) bool { return x == data })
+			}
+			if (isLen0(l) && bsIs(r)) || (bsIs(l) && isLen0(r)) {
+				switch bo.Op {
+				case token.NEQ:
+					eqLenAtoms = append(eqLenAtoms, Atom{ifi, 1, "len == bs"})
+				case token.EQL:
+					eqLenAtoms = append(eqLenAtoms, Atom{ifi, 0, "len == bs"})
+				}
+			}
+		}
+		dbg("unpad cond in %s: %s", fn, be.plain(ifi.Cond, ifi).String())
 		// pad vs constant
 		if k, ok := constInt(r); ok && isPad(l, ifi) {
 			eval := func(p int64) bool { return intCmpTrue(bo.Op, p, k) }
+			pb := bs
+			if pb < 2 {
+				pb = 2
+			}
 			// rejects zero: truth differs between 0 and 1.. ; rejects > bs
-			if eval(0) && !eval(1) && !eval(bs) {
+			if eval(0) && !eval(1) && !eval(pb) {
 				zeroAtoms = append(zeroAtoms, Atom{ifi, 1, "pad != 0"})
-			} else if !eval(0) && eval(1) && eval(bs) && eval(255) {
+			} else if !eval(0) && eval(1) && eval(pb) && eval(255) {
 				zeroAtoms = append(zeroAtoms, Atom{ifi, 0, "pad != 0"})
 			}
 			if bs > 0 {
@@ -299,17 +340,41 @@ func checkUnpad(c *Ctx, rule string, f *ssa.Function, data ssa.Value, bs int64) 
 			}
 		}
 	}
-	g := evalGuard(c.P, f, zeroAtoms, spec, nil)
+	// dynamic block size: when len == blockSize is enforced, a zero-length final block means blockSize == 0
+	// (a degenerate configuration); returns taken on `len(src) == 0` are outside the rule.
+	pre := map[edge]bool{}
+	if bsIs != nil {
+		for _, a := range lenGuardAtoms(f, func(v ssa.Value) bool { return v == data }, func(n int64) bool { return n > 0 }, []int64{0, 1, 16}, "len > 0") {
+			b := a.If.Block()
+			pre[edge{b, b.Succs[1-a.PassSucc]}] = true
+		}
+	}
+	evalG := func(atoms []Atom) guardResult { return evalGuardCut(c.P, f, atoms, spec, nil, pre) }
+	g := evalG(zeroAtoms)
 	c.Check(g.OK, rule, fn, "pad length 0 rejected", g.Why, "a final byte of 0 is not a valid PKCS#7 pad: "+g.Why, g.Pos)
-	if bs > 0 {
-		g = evalGuard(c.P, f, bigAtoms, spec, nil)
+	if bs > 0 || bsIs != nil {
+		g = evalG(bigAtoms)
 		c.Check(g.OK, rule, fn, "pad length above the block size rejected", g.Why, g.Why, g.Pos)
 	}
-	g = evalGuard(c.P, f, lenAtoms, spec, nil)
+	g = evalG(lenAtoms)
+	if !g.OK && bsIs != nil {
+		// pad <= bs together with len == bs
+		g2 := evalGuard(c.P, f, eqLenAtoms, spec, nil)
+		g3 := evalG(bigAtoms)
+		if g2.OK && g3.OK {
+			g = g2
+		}
+	}
 	c.Check(g.OK, rule, fn, "pad length above the data length rejected", g.Why, "a pad longer than the data must be rejected (it is used as a slice bound): "+g.Why, g.Pos)
 	// empty input
 	e := lenGuardAtoms(f, func(v ssa.Value) bool { return v == data }, func(n int64) bool { return n > 0 }, []int64{0, 1, 16}, "len > 0")
 	g = evalGuard(c.P, f, e, spec, nil)
+	if !g.OK && bsIs != nil {
+		// the final block always exists and is full: len == bs is enforced (bs > 0 by construction)
+		if g2 := evalGuard(c.P, f, eqLenAtoms, spec, nil); g2.OK {
+			g = g2
+		}
+	}
 	c.Check(g.OK, rule, fn, "empty input rejected", g.Why, g.Why, g.Pos)
 	// all pad bytes compared: a loop over [0,pad) (or over the tail) comparing each byte with pad, mismatch rejects
 	okLoop := false
@@ -326,6 +391,33 @@ func checkUnpad(c *Ctx, rule string, f *ssa.Function, data ssa.Value, bs int64) 
 			}
 			cmp, ok := ifi.Cond.(*ssa.BinOp)
 			if !ok || cmp.Op != token.LSS || cmp.X != ssa.Value(p) || !isPad(stripConvAll(cmp.Y), ifi) {
+				continue
+			}
+			// the loop may only be left through `i < pad` becoming false or through a rejection
+			inLoop := map[*ssa.BasicBlock]bool{h: true}
+			for _, b := range f.Blocks {
+				if h.Dominates(b) && b != h && reach([]*ssa.BasicBlock{b}, nil)[h] {
+					inLoop[b] = true
+				}
+			}
+			exSucc := successExits(f, spec)
+			earlyExit := false
+			for b := range inLoop {
+				for si, sc := range b.Succs {
+					if inLoop[sc] {
+						continue
+					}
+					if b == h && si == 1 {
+						continue // i < pad is false: all bytes seen
+					}
+					e := edge{b, sc}
+					if r, _ := canReachSuccess(sc, &e, exSucc, nil); r {
+						earlyExit = true
+					}
+				}
+			}
+			if earlyExit {
+				why = "the pad-checking loop can be left before all pad bytes were compared and still succeed"
 				continue
 			}
 			// inside: if tail[i] != byte(pad) -> reject
